@@ -126,21 +126,19 @@ Proof.
      (l_s1 l) (l_s2 l) (l_s3 l) (l_s4 l) (l_s5 l) (l_s6 l) (l_s7 l) (l_s8 l)
      (dec_of_Z (h1_ofxheader h)) (h1_data h) (dec_of_Z (h1_version h)) (h1_security h) (h1_encoding h) (h1_charset h)
      (h1_compression h) (h1_old h) (h1_new h) rest) as M.
-  repeat (match type of M with (?P -> _) => assert (X : P); [|specialize (M X); clear X] end);
-    try (apply all_ws_space; assumption).
-  - rewrite Foh. split; [discriminate|vm_compute; reflexivity].
-  - rewrite Fda. split; [discriminate|vm_compute; reflexivity].
-  - split; assumption.
-  - split; assumption.
-  - split; assumption.
-  - split; assumption.
-  - rewrite Fco. split; [discriminate|vm_compute; reflexivity].
-  - split; [exact Nol|apply uid_word_dash; exact Uol].
-  - split; [exact Nne|apply uid_word_dash; exact Une].
-  - exact R.
-  - specialize (M (l_comp l) (l_indent l) (all_ws_space _ (all_blank_ws _ Gi))).
-    rewrite <- M. f_equal. unfold hdr_text, hdr_fields, v1_ctail_text, v1_tail_text.
-    destruct (l_comp l); repeat (rewrite fld_app || rewrite <- app_assoc); reflexivity.
+  assert (Xoh : dec_of_Z (h1_ofxheader h) <> [] /\ forallb is_decimal (dec_of_Z (h1_ofxheader h)) = true)
+    by (rewrite Foh; split; [discriminate|vm_compute; reflexivity]).
+  assert (Xda : h1_data h <> [] /\ forallb is_AZ (h1_data h) = true) by (rewrite Fda; split; [discriminate|vm_compute; reflexivity]).
+  assert (Xco : h1_compression h <> [] /\ forallb is_AZ (h1_compression h) = true) by (rewrite Fco; split; [discriminate|vm_compute; reflexivity]).
+  specialize (M (all_ws_space _ G1) (all_ws_space _ G2) (all_ws_space _ G3) (all_ws_space _ G4) (all_ws_space _ G5)
+                (all_ws_space _ G6) (all_ws_space _ G7) (all_ws_space _ G8) (all_ws_space _ G9)
+                (all_ws_space _ H1) (all_ws_space _ H2) (all_ws_space _ H3) (all_ws_space _ H4) (all_ws_space _ H5)
+                (all_ws_space _ H6) (all_ws_space _ H7) (all_ws_space _ H8)
+                Xoh Xda (conj Nve Dve) (conj Nse Dse) (conj Nen Den) (conj Nch Dch) Xco
+                (conj Nol (uid_word_dash _ Uol)) (conj Nne (uid_word_dash _ Une)) R).
+  specialize (M (l_comp l) (l_indent l) (all_ws_space _ (all_blank_ws _ Gi))).
+  rewrite <- M. f_equal. unfold hdr_text, hdr_fields, v1_ctail_text, v1_tail_text.
+  destruct (l_comp l); repeat (rewrite fld_app || rewrite <- app_assoc || rewrite <- app_comm_cons); reflexivity.
 Qed.
 
 Theorem parse_v1_layout l h rest : valid1 h = true -> lay1_ok l h = true -> stops is_word_dash rest ->
@@ -161,7 +159,7 @@ Qed.
 (** no line feed inside the values of a valid header *)
 Lemma count_lf_app a b : count_lf (a ++ b) = (count_lf a + count_lf b)%nat.
 Proof. unfold count_lf. rewrite filter_app, app_length. reflexivity. Qed.
-Lemma count_lf_cons c a : count_lf (c :: a) = ((if c =? 10 then 1 else 0) + count_lf a)%nat.
+Lemma count_lf_cons c a : count_lf (c :: a) = ((if (c =? 10)%N then 1 else 0) + count_lf a)%nat.
 Proof. unfold count_lf. cbn [filter]. rewrite N.eqb_sym. destruct (c =? 10); reflexivity. Qed.
 Lemma count_lf_none v : (forall c, In c v -> c <> 10) -> count_lf v = 0%nat.
 Proof.
